@@ -333,8 +333,15 @@ def seeded():
     return out
 
 
+REPAIR = []
+
+
+def RP(id, prop, gone, edits):
+    REPAIR.append({"id": id, "kind": "repair", "props": [prop], "gone": gone, "edits": [dict(file=f, old=o, new=n) for f, o, n in edits]})
+
+
 def all_mutants():
-    return BREAK + seeded() + EQUIV
+    return BREAK + seeded() + EQUIV + REPAIR
 
 # ======================================================================== C02
 B("C02-apply-before-append", "C02", "C02:R-C02.1:keyspace::Keyspace::insert:append-before-apply", KS,
@@ -2582,3 +2589,49 @@ E2("EQ-replay-id-reserve-local",
                         db.keyspace_id_counter.fetch_max(next_free);
 
                         let Some(keyspace_name) = db.meta_keyspace.resolve_id(id)?""")], props=["C12", "C04", "C11"])
+
+
+# ======================================================================== R-C06.6: known findings — one repaired at a time must disappear, an unlocked new site must be reported
+RP("REPAIRED-C06-flush-under-journal-lock", "C06", "C06:R-C06.6:flush::worker::run:version-change-flush-excluded-from-in-flight-batches",
+   [("src/flush/worker.rs", """    let flush_lock = task.keyspace.tree.get_flush_lock();
+""", """    let _journal_lock = task.keyspace.supervisor.journal.get_writer()?;
+    let flush_lock = task.keyspace.tree.get_flush_lock();
+""")])
+RP("REPAIRED-C06-major-compact-under-journal-lock", "C06", "C06:R-C06.6:keyspace::Keyspace::major_compact:version-change-major_compact-excluded-from-in-flight-batches",
+   [(KS, """        self.tree.major_compact(
+            64_000_000,""", """        let _journal_lock = self.supervisor.journal.get_writer()?;
+        self.tree.major_compact(
+            64_000_000,""")])
+RP("REPAIRED-C18-active-replay-skips-persisted", "C18", "C18:R-C18.3:db::Database::recover:replay-skips-records-already-persisted",
+   [(DB, """                        let tree = &keyspace.tree;
+
+                        match item.value_type {
+                            lsm_tree::ValueType::Value => {
+                                tree.insert(item.key, item.value, batch.seqno);""",
+     """                        let tree = &keyspace.tree;
+
+                        if tree.get_highest_persisted_seqno().is_some_and(|p| batch.seqno <= p) {
+                            continue;
+                        }
+
+                        match item.value_type {
+                            lsm_tree::ValueType::Value => {
+                                tree.insert(item.key, item.value, batch.seqno);""")])
+B("C06-ingestion-finish-without-journal-lock", "C06", "C06:R-C06.6:ingestion::Ingestion::<'a>::finish", "src/ingestion.rs",
+  "        let _journal_lock = self.keyspace.supervisor.journal.get_writer();\n", "")
+B("C06-clear-tree-after-releasing-journal-lock", "C06", "C06:R-C06.6:keyspace::Keyspace::clear", KS,
+  """        self.tree.clear().inspect_err(|_| {
+            self.is_poisoned.poison();
+        })?;
+
+        self.supervisor.snapshot_tracker.publish(seqno);
+
+        drop(journal_writer);
+""", """        drop(journal_writer);
+
+        self.tree.clear().inspect_err(|_| {
+            self.is_poisoned.poison();
+        })?;
+
+        self.supervisor.snapshot_tracker.publish(seqno);
+""")
